@@ -13,7 +13,11 @@ GENERATORS = [
 ]
 
 
-def gen_plan(verif_seed, run):
+def gen_opts(tier):
+    return {"new_interp_every": 40 if tier == "quick" else 15}
+
+
+def gen_plan(verif_seed, run, new_interp_every=40):
     rs = derive(PROP, verif_seed, run)
     w, o, c = stream(rs, "world"), stream(rs, "ops"), stream(rs, "clock")
     spec = hist.gen_world(w)
@@ -40,7 +44,7 @@ def gen_plan(verif_seed, run):
                        "step": c.choice([0, 1, 1, 1000, -1000, 3_600_000_000])}
         ops.append(op)
     return {"prop": PROP, "verif_seed": verif_seed, "run": run, "run_seed": rs, "budget": w.choice([2000, 5000, 20000]),
-            "world": spec, "ops": ops}
+            "world": spec, "ops": ops, "new_interpreter_ref": bool(new_interp_every) and run % new_interp_every == 0}
 
 
 def execute(ctx, plan, stats=None):
